@@ -251,6 +251,9 @@ func Universe(o UniverseOpts) *Schema {
 			f("u", N("AB")), f("us", L(N("AB"))),
 			f("strs", L(N("String"))), f("ints", L(N("Int"))),
 			m("echo", N("String"), echoArgs()...),
+			f("title", N("String")), f("dual", N("String")),
+			m("tri", N("String"), &ArgDef{Name: "a", Type: N("String")}, &ArgDef{Name: "b", Type: N("String")}, &ArgDef{Name: "c", Type: N("String")}),
+			m("rev", N("String"), &ArgDef{Name: "x", Type: N("String")}, &ArgDef{Name: "y", Type: N("String")}),
 			m("mi", N("Int")), m("mkid", N("A")), m("mkids", L(N("A"))), m("mnamed", N("Named")),
 		}
 	}
